@@ -12,6 +12,8 @@ the real side; container specs and hex as in PV/C04/Driver.lean):
                                         only "returns (value or error), no panic, no hang" is compared
 Answers:
   ub:   `ok f=<flags> v=<ranges> ops=<ops>,<opN>` | `ok illformed` | `err:<class>`
+        (`ok illformed`: the containers as loaded — before the op log is replayed — contradict their
+        header; reported whatever the replay of the op log then does)
   imp:  `ok changed=<n> v=<ranges>` | `err:<class> v=<ranges of the unchanged target>`
   iter: `[key:type:n:len:fnv32a(values) ...] end=<eof|class>` | `err:<class>`
   iw:   `ok rows=[c0 c1 c2 c3] next=ok` | `err rows=[...] next=ok`
@@ -45,6 +47,13 @@ def step (_u : Unit) (ws : List String) : Unit × Ans :=
     match parseHex? hx with
     | none => bad
     | some d =>
+      -- Pilosa format: the containers are loaded before the op log is replayed; inconsistent
+      -- ones are reported whatever the replay then does (error, or a kernel panic on the real side)
+      let loadedBad := match loadPilosa d with
+        | .ok (_, cs, _) => !entriesWf cs
+        | _ => false
+      if loadedBad then ((), ans2 "ok illformed" "err:ill-formed" "illformed-container-accepted")
+      else
       match unmarshal d with
       | .err e => ((), ans ("err:" ++ e.name))
       | .panic s => ((), ans ("panic:" ++ s))
